@@ -224,6 +224,8 @@ def check(run: Run) -> None:
             it = strip_sites(faL.term_of(lp.iter, faL.cfg.node_of(lp)))
             if it[0] == "app" and it[1] == ("global", "builtins.enumerate") and len(it[2]) == 1:
                 it = it[2][0]
+            while it[0] == "comp" and len(it[3]) == 1 and it[2] == ("elem", it[3][0][0]):
+                it = it[3][0][0]  # a filter over the parameters (p for p in parameters if p.name != "self") is empty when they are
             if fpar is None and fpar0 is not None:
                 # the flag is consumed in _fill_in_default_arguments itself, which hands the helper an empty list when it is false
                 it0 = loop_it0[2][0] if loop_it0[0] == "app" and loop_it0[1] == ("global", "builtins.enumerate") and len(loop_it0[2]) == 1 else loop_it0
@@ -481,6 +483,9 @@ def check_patch_back(run: Run, ctx, m, mod: str, rule: str) -> None:
     if len(fixers) != 1:
         raise AnalysisError("fixup_ast_from_modifications no longer contains one visitor with visit_Call")
     vc = fixers[0].methods["visit_Call"]
+    from ..normalise import unrolled
+
+    vc = unrolled(m, vc)  # the copies may be made by a private procedure visit_Call calls
     fv = ctx.analysis(vc)
     nodep = ("param", vc.pos_params[1])
     old = ("attr", nodep, "_old_ast")
